@@ -559,3 +559,222 @@ Proof.
     + exact FR2.
 Qed.
 End LoadChain2.
+
+(* ---------- the walk only reads link and field words, which are not block headers ---------- *)
+Lemma next_len_le n cap : (cap = 3 \/ cap = 2)%N -> (N.of_nat (n - rest_len n cap) <= cap)%N.
+Proof. intros H. rewrite rest_len_val. lia. Qed.
+
+Lemma lf_ext m w w' : (forall a, ~ is_blk a -> w' a = w a) ->
+  forall fuel to_load bp p a a', lf_ok fuel m w to_load bp p -> st_eqB a a' ->
+    lf_ptr fuel w' to_load bp p = lf_ptr fuel w to_load bp p /\
+    lf_addrs fuel w' to_load bp p = lf_addrs fuel w to_load bp p /\
+    lf_ok fuel m w' to_load bp p /\
+    st_eqB (lf_abs fuel m w' to_load bp p a) (lf_abs fuel m w to_load bp p a').
+Proof.
+  intros Hw. induction fuel as [|f IH]; intros to_load bp p a a' OK E; cbn [lf_ptr lf_addrs lf_ok lf_abs] in *; auto.
+  destruct to_load as [|x r]; auto.
+  set (tl := x :: r) in *. set (cap := (3 - bp_n bp)%N) in *. set (rl := rest_len (List.length tl) cap) in *.
+  assert (Hcap : (cap = 3 \/ cap = 2)%N) by (unfold cap; destruct bp; cbn; auto).
+  destruct OK as (OK0 & Hbq & Kids).
+  destruct (IH (firstn rl tl) Other p a a' OK0 E) as (E1 & E2 & E3 & E4). rewrite E1, E2.
+  set (q := lf_ptr f w (firstn rl tl) Other p) in *.
+  assert (Hfld : forall j, (j < cap)%N -> w (q + field_offset Fst j) = w' (q + field_offset Fst j)).
+  { intros j Hj. symmetry. apply Hw. apply field_not_blk; auto. lia. }
+  assert (Lnext : (N.of_nat (List.length (skipn rl tl)) <= cap)%N) by (rewrite skipn_length; now apply next_len_le).
+  assert (K' : lv_kids m w' (rev (skipn rl tl)) q cap).
+  { eapply lv_kids_congr; [exact Hfld|rewrite rev_length; exact Lnext|exact Kids]. }
+  split; [apply Hw; apply not_blk_off; [exact Hbq|lia]|]. split; [reflexivity|]. split; [auto|].
+  apply blk_abs_congr; auto. intros j Hj. symmetry. now apply Hfld.
+Qed.
+
+Lemma lf_ok_release m w : forall fuel to_load bp p, lf_ok fuel m w to_load bp p -> lf_ok fuel Release w to_load bp p.
+Proof.
+  induction fuel as [|f IH]; intros to_load bp p OK; cbn [lf_ok] in *; auto.
+  destruct to_load as [|x r]; auto. destruct OK as (OK0 & Hbq & _). split; [now apply IH|]. split; [exact Hbq|apply lv_kids_release].
+Qed.
+
+(* every field slot address is a field of a block *)
+Lemma blk_addrs_in q cap a : (cap = 3 \/ cap = 2)%N -> In a (blk_addrs q cap) -> exists j, (j < 3)%N /\ a = q + field_offset Fst j.
+Proof.
+  intros [-> | ->]; unfold blk_addrs; cbn [N.eqb Pos.eqb In]; intros H.
+  - destruct H as [<-|[<-|[<-|[]]]]; [exists 0%N|exists 1%N|exists 2%N]; split; try lia; reflexivity.
+  - destruct H as [<-|[<-|[]]]; [exists 0%N|exists 1%N]; split; try lia; reflexivity.
+Qed.
+Lemma lf_addrs_in m w : forall fuel to_load bp p a, lf_ok fuel m w to_load bp p -> In a (lf_addrs fuel w to_load bp p) ->
+  exists q j, is_blk q /\ (j < 3)%N /\ a = q + field_offset Fst j.
+Proof.
+  induction fuel as [|f IH]; intros to_load bp p a OK Hin; cbn [lf_ok lf_addrs] in *; [contradiction|].
+  destruct to_load as [|x r]; [contradiction|]. destruct OK as (OK0 & Hbq & _).
+  apply in_app_iff in Hin as [Hin|Hin]; [eapply IH; eauto|].
+  apply blk_addrs_in in Hin as (j & Hj & ->); [eauto|]. destruct bp; cbn; auto.
+Qed.
+
+Section LoadChain3.
+Variable im : image.
+
+(* what the walk needs of the object at p: every block of the chain is a block, the pointer slots that
+   are shared are null or blocks, and the counts have room for one more reference per variable *)
+Definition walk_pre (s : xstate) (p : Z) (to_load : ctx) : Prop :=
+  lf_ok (S (List.length to_load)) Share (hword s) to_load Last p /\
+  (forall x, is_blk x -> min_int + 1 <= hword s x /\ hword s x + Z.of_nat (List.length to_load) <= max_int).
+
+Theorem x86_load_walk_ok pos to_load existing lc cs lc' s sp p h F :
+  x_load to_load existing lc = Ok (cs, lc') -> to_load <> [] ->
+  code_at im pos cs -> labels_at im pos cs -> frame_ok s sp ->
+  lget s sp (tpos (2 * N.of_nat (List.length existing))) = Some p -> is_blk p -> rget s HEAP = Some h ->
+  walk_pre s p to_load ->
+  let fuel := S (List.length to_load) in
+  exists s', steps im pos s (pnth pos (List.length cs)) s' /\
+    st_eqB (abs_heap F s')
+      (if hword s p =? 0 then lf_abs fuel Release (hword s) to_load Last p (abs_heap F s)
+       else lf_abs fuel Share (hword s) to_load Last p (Heap.dec p (abs_heap F s))) /\
+    (forall i b, nth_error to_load i = Some b ->
+       let A := lf_addrs fuel (hword s) to_load Last p in
+       let a := nth (List.length A - List.length to_load + i) A 0 in
+       lget s' sp (tpos (2 * N.of_nat (List.length existing + i) + 1)) = Some (hword s (a + 8)) /\
+       (bchi b <> Ext -> lget s' sp (tpos (2 * N.of_nat (List.length existing + i))) = Some (hword s a))) /\
+    (forall k, (k < 2 * N.of_nat (List.length existing))%N -> lget s' sp (tpos k) = lget s sp (tpos k)) /\
+    out s' = out s /\ frame_ok s' sp.
+Proof.
+  intros Hx Hne HC HL FR P Hb Hh (OK & Room) fuel.
+  assert (Hk2E : (2 * N.of_nat (List.length existing) < MAXPOS)%N).
+  { unfold x_load in Hx. destruct to_load; [contradiction|]. destruct (x_fresh Fst existing) as [t|] eqn:Et; [|discriminate].
+    apply x_fresh_tpos in Et as [_ K]. cbn [tnum_n] in K. now rewrite N.add_0_r in K. }
+  (* a common statement for the block register br that holds p for the header test *)
+  assert (Main : forall br cs1 pos1 s0, load_register br to_load existing lc = Ok (cs1, lc') ->
+     code_at im pos1 cs1 -> labels_at im pos1 cs1 -> frame_ok s0 sp ->
+     rget s0 br = Some p -> lget s0 sp (tpos (2 * N.of_nat (List.length existing))) = Some p -> rget s0 HEAP = Some h ->
+     (forall a, hword s0 a = hword s a) ->
+     exists s', steps im pos1 s0 (pnth pos1 (List.length cs1)) s' /\
+       st_eqB (abs_heap F s')
+         (if hword s p =? 0 then lf_abs fuel Release (hword s) to_load Last p (abs_heap F s0)
+          else lf_abs fuel Share (hword s) to_load Last p (Heap.dec p (abs_heap F s0))) /\
+       (forall i b, nth_error to_load i = Some b ->
+          let A := lf_addrs fuel (hword s) to_load Last p in
+          let a := nth (List.length A - List.length to_load + i) A 0 in
+          lget s' sp (tpos (2 * N.of_nat (List.length existing + i) + 1)) = Some (hword s (a + 8)) /\
+          (bchi b <> Ext -> lget s' sp (tpos (2 * N.of_nat (List.length existing + i))) = Some (hword s a))) /\
+       (forall k, (k < 2 * N.of_nat (List.length existing))%N -> lget s' sp (tpos k) = lget s0 sp (tpos k)) /\
+       out s' = out s0 /\ frame_ok s' sp).
+  { clear HC HL Hx pos cs. intros br cs pos s0 Hlr HC HL FR0 Rb P0 Hh0 W0.
+    destruct (load_register_shape _ _ _ _ _ _ Hlr) as (thn & fr1 & lc1 & els & fr2 & lc2 & Ethn & Eels & -> & _).
+    pose proof (blk_heap_addr p Hb) as Ha.
+    set (seg2 := [ADDIM br 0 (-1)] ++ els) in *.
+    apply code_at_app2 in HC as [HC1 HCr]. apply labels_at_app2 in HL as [_ HLr].
+    apply code_at_app2 in HCr as [HC2 HCr]. apply labels_at_app2 in HLr as [HL2 HLr].
+    apply code_at_app2 in HCr as [HC3 HCr]. apply labels_at_app2 in HLr as [HL3 HLr].
+    apply code_at_app2 in HCr as [HC4 HC5]. apply labels_at_app2 in HLr as [HL4 HL5].
+    rewrite !pnth_app_len.
+    set (p2 := pnth pos (List.length [CMPIM br 0 0; JEL (lab (lc2 + 1))])) in *.
+    set (p3 := pnth p2 (List.length seg2)) in *.
+    set (p4 := pnth p3 (List.length [JMPL (lab (lc2 + 2)); LAB (lab (lc2 + 1))])) in *.
+    set (p5 := pnth p4 (List.length thn)) in *.
+    pose proof (HL3 1%nat _ eq_refl) as Lthen. pose proof (HL5 0%nat _ eq_refl) as Lelse. cbn [pnth] in Lelse.
+    set (sa := set_flags s0 (Some (hword s0 p, 0))).
+    assert (STa : steps im pos s0 (Pos.succ pos) sa).
+    { eapply steps_next; [apply (HC1 0%nat); reflexivity| |apply steps_refl]. eapply step_CMPIM0_heap; [exact Rb|exact Ha]. }
+    assert (FRa : frame_ok sa sp) by (now apply frame_ok_set_flags).
+    assert (Wa : forall a, hword sa a = hword s a) by exact W0.
+    assert (Pa : lgetL sa sp false (tpos (2 * N.of_nat (List.length existing))) = Some p) by (rewrite lgetL_false; exact P0).
+    assert (Frame : forall s' : xstate, (forall l, untouched l ->
+              (forall k, (2 * N.of_nat (List.length existing) <= k <= 2 * N.of_nat (List.length existing + List.length to_load))%N -> l <> tpos k) ->
+              lgetL s' sp false l = lgetL sa sp false l) ->
+            forall k, (k < 2 * N.of_nat (List.length existing))%N -> lget s' sp (tpos k) = lget s0 sp (tpos k)).
+    { intros s' Hfr k Hk. rewrite <- (lgetL_false s' sp), Hfr, lgetL_false; [reflexivity| |intros k' Hk'; apply tpos_neq; lia].
+      destruct (tpos_not_reserved k) as (_ & U2 & U3 & _ & U5). split; [apply tpos_loc_ok; lia|auto]. }
+    destruct (Z.eqb_spec (hword s p) 0) as [H0|Hn0].
+    - (* release *)
+      destruct (lf_ext Release (hword s) (hword sa) (fun a _ => Wa a) fuel to_load Last p (abs_heap F sa) (abs_heap F s0) (lf_ok_release _ _ _ _ _ _ OK))
+        as (X1 & X2 & X3 & X4); [apply abs_heap_same; reflexivity|].
+      destruct (x86_load_fields_ok im fuel to_load existing Last Release false lc thn fr1 lc1 p4 sa sp p h F Ethn ltac:(unfold fuel; lia) (fun _ => Hne) HC4 HL4 FRa
+                  ltac:(discriminate) Pa Hh0 X3 ltac:(discriminate))
+        as (sb & STb & EQb & _ & _ & Vb & Ob & _ & _ & _ & Outb & FRb).
+      cbn [frL] in Vb, Ob.
+      exists sb. split; [|split; [|split; [|split; [|split; [exact Outb|exact FRb]]]]].
+      + eapply steps_trans; [exact STa|].
+        eapply steps_jump; [apply (HC1 1%nat); reflexivity| |].
+        { rewrite (step_JEL im _ _ (hword s0 p) 0) by reflexivity. rewrite W0, H0. cbn [Z.eqb]. unfold goto_label. rewrite Lthen. reflexivity. }
+        eapply steps_next; [apply (HC3 1%nat); reflexivity|reflexivity|].
+        change (Pos.succ (pnth p3 1)) with p4.
+        eapply steps_trans; [exact STb|]. fold p5.
+        eapply steps_next; [apply (HC5 0%nat); reflexivity|reflexivity|]. apply steps_refl.
+      + eapply st_eqB_trans; [exact EQb|exact X4].
+      + intros i b Hi A a. destruct (Vb i b Hi) as [VS VF]. rewrite !lgetL_false in VS, VF. rewrite X2 in VS, VF.
+        rewrite !Wa in VS, VF. auto.
+      + now apply Frame.
+    - (* decrement, share *)
+      destruct (Room p Hb) as [Rlo Rhi].
+      assert (Wd : wrap (hword s p + -1) = hword s p - 1) by (apply wrap_id; unfold min_int, max_int, two63 in *; lia).
+      set (sd := set_flags (hset sa p (wrap (hword sa p + -1))) None).
+      assert (FRd : frame_ok sd sp) by (apply frame_ok_set_flags, frame_ok_hset; exact FRa).
+      assert (Wsd : forall a, hword sd a = if a =? p then hword s p - 1 else hword s a).
+      { intros a. unfold sd. rewrite hword_set_flags, hword_hset by (now apply is_blk_pos). rewrite !Wa. now rewrite Wd. }
+      assert (Wnb : forall a, ~ is_blk a -> hword sd a = hword s a).
+      { intros a Hna. rewrite Wsd. destruct (Z.eqb_spec a p) as [->|]; [contradiction|reflexivity]. }
+      assert (EQd : st_eqB (abs_heap F sd) (Heap.dec p (abs_heap F s0))).
+      { unfold Heap.dec. split; [reflexivity|]. split; [reflexivity|]. split; [reflexivity|].
+        intros x Hx'. cbn [abs_heap Heap.m]. unfold sd. rewrite Wa, Wd. change (Heap.hdr (abs_mem s0 p)) with (hword s0 p). rewrite W0.
+        change (abs_mem (set_flags (hset sa p (hword s p - 1)) None) x) with (abs_mem (hset s0 p (hword s p - 1)) x).
+        now apply abs_mem_hset. }
+      destruct (lf_ext Share (hword s) (hword sd) Wnb fuel to_load Last p (abs_heap F sd) (Heap.dec p (abs_heap F s0)) OK EQd) as (X1 & X2 & X3 & X4).
+      unfold seg2 in HC2, HL2. apply code_at_app2 in HC2 as [HC2a HC2b]. apply labels_at_app2 in HL2 as [_ HL2b].
+      assert (Pd : lgetL sd sp false (tpos (2 * N.of_nat (List.length existing))) = Some p) by (rewrite lgetL_false; exact P0).
+      destruct (x86_load_fields_ok im fuel to_load existing Last Share false lc1 els fr2 lc2 _ sd sp p h F Eels ltac:(unfold fuel; lia) (fun _ => Hne) HC2b HL2b FRd
+                  ltac:(discriminate) Pd Hh0 X3)
+        as (se & STe & EQe & _ & _ & Ve & Oe & _ & _ & _ & Oute & FRe).
+      { intros _ x Hx'. destruct (Room x Hx'). rewrite Wsd. destruct (x =? p); lia. }
+      cbn [frL] in Ve, Oe.
+      exists se. split; [|split; [|split; [|split; [|split; [exact Oute|exact FRe]]]]].
+      + eapply steps_trans; [exact STa|].
+        eapply steps_next; [apply (HC1 1%nat); reflexivity| |].
+        { rewrite (step_JEL im _ _ (hword s0 p) 0) by reflexivity. rewrite W0. destruct (Z.eqb_spec (hword s p) 0); [contradiction|reflexivity]. }
+        change (Pos.succ (Pos.succ pos)) with p2.
+        eapply steps_next; [apply (HC2a 0%nat); reflexivity| |].
+        { eapply step_ADDIM_heap; [exact Rb|exact Ha|reflexivity]. }
+        fold sd. change (Pos.succ p2) with (pnth p2 (List.length [ADDIM br 0 (-1)])).
+        eapply steps_trans; [exact STe|]. rewrite <- pnth_app_len. fold seg2. fold p3.
+        eapply steps_jump; [apply (HC3 0%nat); reflexivity| |].
+        { cbn [step]. unfold goto_label. rewrite Lelse. reflexivity. }
+        eapply steps_next; [apply (HC5 0%nat); reflexivity|reflexivity|]. apply steps_refl.
+      + eapply st_eqB_trans; [exact EQe|exact X4].
+      + intros i b Hi A a. destruct (Ve i b Hi) as [VS VF]. rewrite !lgetL_false in VS, VF. rewrite X2 in VS, VF. fold A a in VS, VF.
+        assert (Hi' : (i < List.length to_load)%nat) by (apply nth_error_Some; congruence).
+        assert (LA : (List.length to_load <= List.length A)%nat) by (apply lf_addrs_length; unfold fuel; lia).
+        assert (Hin : In a A) by (apply nth_In; lia).
+        destruct (lf_addrs_in Share (hword s) fuel to_load Last p a OK Hin) as (q & j & Hq & Hj & Ea).
+        assert (N1 : ~ is_blk a) by (rewrite Ea; now apply field_not_blk).
+        assert (N2 : ~ is_blk (a + 8)) by (rewrite Ea, <- Z.add_assoc, <- fo_snd_fst; now apply field_not_blk).
+        rewrite (Wnb _ N1) in VF. rewrite (Wnb _ N2) in VS. auto.
+      + now apply Frame. }
+  unfold x_load in Hx. destruct to_load as [|x0 r0]; [contradiction|].
+  destruct (x_fresh Fst existing) as [t|] eqn:Et; [|discriminate]. cbn [rbind] in Hx.
+  apply x_fresh_tpos in Et as [-> Hk]. cbn [tnum_n] in *. rewrite N.add_0_r in *.
+  destruct (tpos (2 * N.of_nat (List.length existing))) as [r|q] eqn:Etp.
+  - cbn [lget] in P. rewrite <- Etp in *.
+    apply (Main r cs pos s Hx HC HL FR); auto. rewrite Etp. exact P.
+  - destruct (load_register TEMP (x0 :: r0) existing lc) as [[c1 lc1]|] eqn:Elr; [|discriminate]. cbn [rbind fst snd] in Hx.
+    inversion Hx; subst cs lc'. clear Hx.
+    assert (Q : slot_ok q) by (pose proof (tpos_loc_ok _ Hk) as L; rewrite Etp in L; exact L).
+    cbn [lget] in P.
+    change (MOVL TEMP STACK (stack_offset q) :: c1) with ([MOVL TEMP STACK (stack_offset q)] ++ c1) in *.
+    apply code_at_app2 in HC as [HC1 HC2]. apply labels_at_app2 in HL as [_ HL2].
+    set (s0 := rset s TEMP (Some p)).
+    assert (FR0 : frame_ok s0 sp) by (apply frame_ok_rset; [discriminate|exact FR]).
+    rewrite <- Etp in *.
+    destruct (Main TEMP c1 _ s0 Elr HC2 HL2 FR0) as (s' & ST & EQ & V & O & Out & FR'); auto.
+    { apply rget_rset_same. }
+    { rewrite Etp. cbn [lget]. unfold s0. rewrite sget_rset. exact P. }
+    { unfold s0. rewrite rget_rset_other by discriminate. exact Hh. }
+    exists s'. split; [|split; [|split; [exact V|split; [|split; [exact Out|exact FR']]]]].
+    + eapply steps_app_len; [|exact ST].
+      eapply steps_next; [apply (HC1 0%nat); reflexivity| |apply steps_refl].
+      rewrite (step_MOVL_slot im s sp FR) by exact Q. rewrite P. reflexivity.
+    + eapply st_eqB_trans; [exact EQ|].
+      assert (E0 : st_eqB (abs_heap F s0) (abs_heap F s)) by apply abs_heap_rset_temp.
+      destruct (hword s p =? 0).
+      * apply (lf_ext Release (hword s) (hword s) (fun a _ => eq_refl)); [exact (lf_ok_release _ _ _ _ _ _ OK)|exact E0].
+      * apply (lf_ext Share (hword s) (hword s) (fun a _ => eq_refl)); [exact OK|]. apply dec_st_eqB; auto.
+    + intros k Hk'. rewrite O by exact Hk'. unfold s0.
+      pose proof (tpos_not_temp k) as NT. destruct (tpos k) as [r|q']; cbn [lget]; [apply rget_rset_other; congruence|apply sget_rset].
+Qed.
+End LoadChain3.
